@@ -11,6 +11,116 @@ const NUMERICS: &'static [char] = &[
     '0', '1', '2', '3', '4', '5', '6', '7', '8', '9', '0', '.', '-', '+', 'e', 'E',
 ];
 
+/// WhiteSpace and LineTerminator code points of ECMA-262 (StrWhiteSpaceChar)
+fn is_js_whitespace(c: char) -> bool {
+    match c {
+        '\u{0009}'..='\u{000D}'
+        | '\u{0020}'
+        | '\u{00A0}'
+        | '\u{1680}'
+        | '\u{2000}'..='\u{200A}'
+        | '\u{2028}'
+        | '\u{2029}'
+        | '\u{202F}'
+        | '\u{205F}'
+        | '\u{3000}'
+        | '\u{FEFF}' => true,
+        _ => false,
+    }
+}
+
+/// Length of the longest prefix of `s` that is an unsigned decimal literal
+/// of the StrDecimalLiteral grammar (digits, optional fraction, optional
+/// exponent; at least one digit in the mantissa). Zero if there is none.
+fn decimal_literal_len(s: &str) -> usize {
+    let bytes = s.as_bytes();
+    let digits_end = |from: usize| {
+        from + bytes
+            .iter()
+            .skip(from)
+            .take_while(|b| b.is_ascii_digit())
+            .count()
+    };
+    let int_end = digits_end(0);
+    let mut mantissa_digits = int_end;
+    let mut end = int_end;
+    if bytes.get(end) == Some(&b'.') {
+        let frac_end = digits_end(end + 1);
+        mantissa_digits += frac_end - (end + 1);
+        if mantissa_digits > 0 {
+            end = frac_end;
+        }
+    }
+    if mantissa_digits == 0 {
+        return 0;
+    }
+    if let Some(b'e') | Some(b'E') = bytes.get(end) {
+        let exp_start = match bytes.get(end + 1) {
+            Some(b'+') | Some(b'-') => end + 2,
+            _ => end + 1,
+        };
+        let exp_end = digits_end(exp_start);
+        if exp_end > exp_start {
+            end = exp_end;
+        }
+    }
+    end
+}
+
+/// Split an optional leading sign off a string
+fn split_sign(s: &str) -> (bool, &str) {
+    if let Some(rest) = s.strip_prefix('-') {
+        (true, rest)
+    } else {
+        (false, s.strip_prefix('+').unwrap_or(s))
+    }
+}
+
+/// Value of a `0x`, `0o` or `0b` integer literal, correctly rounded.
+///
+/// Returns None if the string does not start with such a prefix, and
+/// Some(None) if it does but is not a valid literal.
+fn radix_literal(s: &str) -> Option<Option<f64>> {
+    let mut chars = s.chars();
+    if chars.next() != Some('0') {
+        return None;
+    }
+    let (radix, bits) = match chars.next() {
+        Some('x') | Some('X') => (16, 4),
+        Some('o') | Some('O') => (8, 3),
+        Some('b') | Some('B') => (2, 1),
+        _ => return None,
+    };
+    let digits = chars.as_str();
+    if digits.is_empty() {
+        return Some(None);
+    }
+    // Keep the leading 60+ bits exactly, count the bits shifted out and
+    // remember whether any of them was set, so that the final conversion
+    // rounds once, to nearest even.
+    let mut acc: u64 = 0;
+    let mut shift: i32 = 0;
+    let mut sticky = false;
+    for c in digits.chars() {
+        let digit = match c.to_digit(radix) {
+            Some(d) => d as u64,
+            None => return Some(None),
+        };
+        if acc >> 60 == 0 {
+            acc = (acc << bits) | digit;
+        } else {
+            shift = shift.saturating_add(bits);
+            sticky = sticky || digit != 0;
+        }
+    }
+    let mantissa = (acc | sticky as u64) as f64;
+    Some(Some(if shift > 1100 {
+        f64::INFINITY
+    } else {
+        mantissa * 2f64.powi(shift)
+    }))
+}
+
 // TODOS:
 // - there are too many tests in docstrings
 // - the docstrings are too sarcastic about JS equality
@@ -56,13 +166,25 @@ fn to_primitive_number(value: &Value) -> Option<f64> {
     }
 }
 
+/// Convert a string to a number the way JS `Number(string)` does,
+/// returning None where that would return NaN.
 pub fn str_to_number<S: AsRef<str>>(string: S) -> Option<f64> {
-    let s = string.as_ref();
+    let s = string.as_ref().trim_matches(is_js_whitespace);
     if s == "" {
-        Some(0.0)
-    } else {
-        f64::from_str(s).ok()
+        return Some(0.0);
     }
+    if let Some(radix_value) = radix_literal(s) {
+        return radix_value;
+    }
+    let (negative, unsigned) = split_sign(s);
+    let magnitude = if unsigned == "Infinity" {
+        f64::INFINITY
+    } else if unsigned != "" && decimal_literal_len(unsigned) == unsigned.len() {
+        f64::from_str(unsigned).ok()?
+    } else {
+        return None;
+    };
+    Some(if negative { -magnitude } else { magnitude })
 }
 
 enum Primitive {
